@@ -153,13 +153,17 @@ class WriteChunk(Contract):
 
     def effects(self, c):
         so = c.st.obj(c.a["sock"])
-        so.fields["g_wire"] = concat(c.old.obj(c.a["sock"]).fields["g_wire"], chunk_enc(c.a["data"]))
+        enc = chunk_enc(c.a["data"])
+        c.st.assume(*enc.axioms())
+        so.fields["g_wire"] = concat(c.old.obj(c.a["sock"]).fields["g_wire"], enc)
 
     def post(self, c):
         s1, s0 = c.st.obj(c.a["sock"]), c.old.obj(c.a["sock"])
         d = c.a["data"]
-        return [("wire'==wire++HEX(len)CRLF data CRLF", tail_struct_eq(s1.fields["g_wire"], s0.fields["g_wire"], chunk_enc(d))),
-                ("length-accounting", s1.fields["g_wl"].t == s0.fields["g_wl"].t + chunk_enc(d).length())]
+        enc = chunk_enc(d)
+        return [("wire'==wire++HEX(len)CRLF data CRLF", tail_struct_eq(s1.fields["g_wire"], s0.fields["g_wire"], enc)),
+                ("length-accounting", s1.fields["g_wl"].t == s0.fields["g_wl"].t + enc.length()),
+                ("a-chunk-is-never-empty-on-the-wire", enc.length() >= 5)]
 
 
 # ======================================================================================================
